@@ -76,6 +76,24 @@ func hashCommitShape(P *Program, R *Report, rule string) {
 		R.bad(rule, key+":branch", "the encoding depends on issig (marker present iff issig)", "no branch on the issig parameter", P.Pos(fn.Pos()))
 		return
 	}
+	// the marker is written exactly under issig
+	nMarker := 0
+	allInstrs(fn, func(i ssa.Instruction) {
+		st, ok := i.(*ssa.Store)
+		if !ok || desc(st.Val) != "true" {
+			return
+		}
+		nMarker++
+		under := false
+		for _, a := range controllingConds(st.Block()) {
+			a = normAtom(a)
+			if desc(a.V) == "arg#1" && a.Want == True {
+				under = true
+			}
+		}
+		R.decide(rule, key+":marker-iff-issig", "the boolean marker is written only on the path where issig is true", under, "the marker store is not control-dependent on issig alone", P.Pos(st.Pos()))
+	})
+	R.decide(rule, key+":marker-present", "a boolean marker is written for signature sessions", nMarker == 1, fmt.Sprintf("%d marker stores", nMarker), P.Pos(fn.Pos()))
 	elemD := "call:big.(*Int).Go(arg#0[#i])"
 	countD := "call:math/big.NewInt(len(arg#0))"
 	for _, sig := range []bool{true, false} {
